@@ -343,7 +343,7 @@ def rand_dim(rng, lo=1, hi=5):
     return rng.randint(lo, hi)
 
 
-REGS = [0, 0, 1, 2, 0.5, 0.25, 3, 0.1]
+REGS = [0, 0, 1, 2, 0.5, 0.25, 3, 0.1, -1, -0.5]
 
 
 def rand_leaf(rng, kind=None, shape=None, bad=False):
@@ -367,7 +367,7 @@ def rand_leaf(rng, kind=None, shape=None, bad=False):
         return ('slr', a, tuples, rng.random() < 0.5)
     if kind == 'reg':
         r, c = shape or (rand_dim(rng), rand_dim(rng))
-        return ('reg', rand_matrix(rng, r, c), rng.choice(REGS + [-1, -0.5]))
+        return ('reg', rand_matrix(rng, r, c), rng.choice(REGS))
     if kind == 'nrm':
         r, c = shape or (rand_dim(rng), rand_dim(rng))
         return ('nrm', rand_matrix(rng, r, c), rng.choice(REGS))
@@ -377,7 +377,7 @@ def rand_leaf(rng, kind=None, shape=None, bad=False):
             a = rand_matrix(rng, n, n + 1)
             return ('lap', a, rng.choice(REGS), False)
         a = rand_matrix(rng, n, n, mode=rng.choice(['nonneg', 'binary', 'messy']) if nz else None)
-        return ('lap', a, rng.choice(REGS), nz)
+        return ('lap', a, rng.choice([r for r in REGS if r >= 0] if nz else REGS), nz)
     if kind == 'con':
         c = rand_dim(rng)
         return ('con', _no_hidden_zero(rand_matrix(rng, n, c)), rng.random() < 0.6)
